@@ -606,13 +606,13 @@ fn convert_class_names_and_rpx_in_block(input: &mut StepParser, ss: &mut StyleSh
                     }
                     Token::Function(func) => {
                         let func: &str = func;
-                        let config = if func == "calc" {
-                            Some(ConvertOptions { in_calc: true })
-                        } else {
-                            None
-                        };
                         let close = ss.append_nested_block(next.clone(), input);
-                        convert_rpx_in_block(input, ss, config);
+                        if func == "calc" {
+                            convert_rpx_in_block(input, ss, Some(ConvertOptions { in_calc: true }));
+                        } else {
+                            // e.g. `:not(:is(.a .b))` : still selectors, at any depth
+                            convert_class_names_and_rpx_in_block(input, ss);
+                        }
                         ss.append_nested_block_close(close, input);
                         in_class = false;
                     }
